@@ -79,7 +79,10 @@ class StarFinderBase(metaclass=abc.ABCMeta):
                 footprint = kernel.mask.astype(bool)
         else:
             # define a local circular footprint for the peak finder
-            idx = np.arange(-min_separation, min_separation + 1)
+            # integer pixel offsets, symmetric about the central pixel
+            # (also for a non-integer min_separation)
+            nsep = int(min_separation)
+            idx = np.arange(-nsep, nsep + 1)
             xx, yy = np.meshgrid(idx, idx)
             footprint = np.array((xx**2 + yy**2) <= min_separation**2,
                                  dtype=int)
